@@ -52,7 +52,7 @@ def seed_pages() -> Tuple[Doc, Dict[str, Any]]:
     c1 = d.add(Stream({}, b"BT /F1 12 Tf 20 100 Td (One) Tj ET"))
     c2a = d.add(Stream({}, b"BT /F1 12 Tf 20 100 Td (Tw"))
     c2b = d.add(Stream({}, b"o) Tj ET"))
-    c3 = d.add(Stream({"Filter": N("FlateDecode")}, zlib.compress(b"q 1 0 0 1 5 5 cm BT /F2 9 Tf 1 0 0 1 20 50 Tm (Three) Tj T* (x) ' ET Q")))
+    c3 = d.add(Stream({"Filter": N("FlateDecode"), "DecodeParms": {"Predictor": 1, "Columns": 1}}, zlib.compress(b"q 1 0 0 1 5 5 cm BT /F2 9 Tf 1 0 0 1 20 50 Tm (Three) Tj T* (x) ' ET Q")))
     mbox = d.add([0, 0, 200, 150])
     labels = d.add({"Nums": [0, {"S": N("r")}, 2, {"S": N("D"), "St": 5, "P": b"A-"}]})
     d.set(cat, {"Type": N("Catalog"), "Pages": root, "PageLabels": {"Kids": [labels]}})
@@ -164,7 +164,8 @@ def seed_graphics() -> Tuple[Doc, Dict[str, Any]]:
                         "Filter": [N("ASCIIHexDecode"), N("CCITTFaxDecode")], "DecodeParms": [None, {"K": -1, "Columns": 8, "Rows": 1, "BlackIs1": False}]}, b"26 A0 01 00 10 >"))
     icc = d.add(Stream({"N": 3, "Alternate": N("DeviceRGB")}, b"\x00" * 16))
     lut = d.add(Stream({}, bytes(range(6))))
-    inner = d.add(Stream({"Type": N("XObject"), "Subtype": N("Form"), "BBox": [0, 0, 50, 50], "Matrix": [1, 0, 0, 1, 3, 3]}, b"0 0 10 10 re f"))
+    inner = d.add(Stream({"Type": N("XObject"), "Subtype": N("Form"), "BBox": [0, 0, 50, 50], "Matrix": [1, 0, 0, 1, 3, 3],
+                          "Resources": {"XObject": {"Deep": im2}}}, b"0 0 10 10 re f q 2 0 0 2 0 0 cm /Deep Do Q"))
     form = d.add(Stream({"Type": N("XObject"), "Subtype": N("Form"), "FormType": 1, "BBox": [0, 0, 100, 100], "Matrix": [2, 0, 0, 2, 10, 10],
                          "Resources": {"Font": {"F9": f1}, "XObject": {"In": inner}}}, b"BT /F9 5 Tf (Form) Tj ET /In Do"))
     gs = d.add({"Type": N("ExtGState"), "LW": 2, "D": [[1, 2], 0]})
@@ -213,6 +214,58 @@ def seed_crypt() -> Tuple[Doc, Dict[str, Any]]:
     return d, {"root": cat, "info": info, "trailer_extra": {"Encrypt": encd, "ID": [HexStr(docid), HexStr(docid)]}}
 
 
+class _SelfOffset:
+    def __repr__(self):
+        return "SELF_OFFSET"
+
+
+SELF_OFFSET = _SelfOffset()  # trailer value meaning "the offset of this very cross-reference section"
+
+
+def write_incr(d: Doc, kw: Dict[str, Any]) -> bytes:
+    """Base revision (objects < 1000, classic table) + one incremental update (objects >= 1000 are
+    written as number-1000 in the update section, which has /Prev)."""
+    from mc.pdfgen import DROP, ser, xref_table
+
+    base = Doc(d.header)
+    upd = Doc(b"")
+    for num, (gen, obj) in d.objs.items():
+        if num < 1000:
+            base.objs[num] = (gen, obj)
+        else:
+            upd.objs[num - 1000] = (gen, obj)
+    b = base.write(kw["root"], info=kw.get("info"))
+    prev = int(b[b.rindex(b"startxref") + 10:].split()[0])
+    body, offs = upd.body(start=len(b), header=b"")
+    xoff = len(b) + len(body)
+    tr: Dict[str, Any] = {"Size": max(list(base.objs) + list(upd.objs)) + 1, "Root": kw["root"], "Prev": prev}
+    if kw.get("info"):
+        tr["Info"] = kw["info"]
+    tr.update(kw.get("trailer_extra") or {})
+    tr = {k: (xoff if v is SELF_OFFSET else v) for k, v in tr.items() if v is not DROP}
+    return b + body + xref_table(offs, free0=False) + b"trailer\n" + ser(tr) + b"\nstartxref\n%d\n%%%%EOF\n" % xoff
+
+
+def seed_incr() -> Tuple[Doc, Dict[str, Any]]:
+    """classic file with one incremental update: a page's content and the Info dictionary are redefined"""
+    d = Doc()
+    f1 = d.add({"Type": N("Font"), "Subtype": N("Type1"), "BaseFont": N("Helvetica")})
+    cat = _skeleton(d, b"BT /F1 12 Tf 20 100 Td (Old) Tj ET", {"Font": {"F1": f1}})
+    info = d.add({"Title": b"old"})
+    content = next(n for n, (_, o) in d.objs.items() if isinstance(o, Stream))
+    d.objs[1000 + content] = (0, Stream({}, b"BT /F1 12 Tf 20 100 Td (New) Tj ET"))
+    d.objs[1000 + info.num] = (0, {"Title": b"new", "Author": b"\xfe\xff\x00A"})
+    return d, {"root": cat, "info": info, "writer": write_incr}
+
+
+def write(d: Doc, kw: Dict[str, Any], mutate: Any = None) -> bytes:
+    kw = dict(kw)
+    w = kw.pop("writer", None)
+    if w is not None:
+        return w(d, kw)
+    return d.write(mutate=mutate, **kw)
+
+
 SEEDS = {
     "pages": seed_pages,
     "fonts": seed_fonts,
@@ -220,9 +273,10 @@ SEEDS = {
     "xref": seed_xref,
     "graphics": seed_graphics,
     "crypt": seed_crypt,
+    "incr": seed_incr,
 }
 
 
 def build(name: str) -> bytes:
     d, kw = SEEDS[name]()
-    return d.write(**kw)
+    return write(d, kw)
